@@ -229,7 +229,7 @@ def equilibrium_range_values(
         i_min_variance = i_min_variance.flatten()
 
         for ii in range(0, number_of_bins):
-            jj = np.clip(i_min_variance + ii, a_min=0, a_max=nf - 1 - number_of_bins)
+            jj = np.clip(i_min_variance + ii, a_min=0, a_max=nf - 1)
 
             indexer = tuple([ind for ind in unraveled_index] + [jj])
 
